@@ -56,8 +56,21 @@ fn get_existing_file(path: &Utf8Path, filenames: &[&str]) -> Option<Utf8PathBuf>
     None
 }
 
+/// the file names an import is searched for, in order of precedence
+const LAZEFILE_NAMES: [&str; 3] = ["laze-lib.yml", "laze.yml", "laze-project.yml"];
+
+/// The candidates that would have been chosen instead of `lazefile` had they existed.
+/// What was loaded depends on their absence.
+pub fn preferred_over(lazefile: &Utf8Path) -> Vec<Utf8PathBuf> {
+    LAZEFILE_NAMES
+        .iter()
+        .take_while(|name| lazefile.file_name() != Some(**name))
+        .map(|name| lazefile.with_file_name(name))
+        .collect()
+}
+
 fn get_lazefile(path: &Utf8Path) -> Result<Utf8PathBuf, Error> {
-    get_existing_file(path, &["laze-lib.yml", "laze.yml", "laze-project.yml"]).ok_or(anyhow!(
+    get_existing_file(path, &LAZEFILE_NAMES).ok_or(anyhow!(
         "no \"laze-lib.yml\", \"laze.yml\" or \"laze-project.yml\" in import"
     ))
 }
